@@ -56,10 +56,11 @@ def variants(rng, pts):
     return out
 
 def scale_pts(rng, pts):
-    """optionally move to dyadic non-integer coordinates (exact in binary64) and translate"""
+    """optionally move to dyadic non-integer coordinates (exact in binary64), per-axis units, and translate"""
     s = rng.choice([1, 1, Fraction(1, 2), Fraction(1, 4), 3, Fraction(5, 8)])
     tx, ty = rng.choice([0, 0, 100, -1000, Fraction(7, 8)]), rng.choice([0, 0, 50, -3])
-    return [(Fraction(x) * s + tx, Fraction(y) * s + ty) for x, y in pts], s, tx, ty
+    sy = s if rng.random() < .6 else rng.choice([1, Fraction(1, 2), 2, Fraction(3, 4), 5])   # different units per axis (theorem C20_axis_scaling)
+    return [(Fraction(x) * s + tx, Fraction(y) * sy + ty) for x, y in pts], s, tx, ty
 
 def queries(rng, pts, m):
     xs = sorted(set(p[0] for p in pts)); ys = sorted(set(p[1] for p in pts))
